@@ -381,6 +381,45 @@ pub fn check_case(tree: &Tree, cfg: &WalkCfg, base: &Path, threads: &[usize], re
     });
 }
 
+/// `.ignore` files at the top and in some sub directories, with rules over
+/// the names the tree generator uses: plain names, directory-only rules,
+/// anchored rules, extensions, re-inclusions. Nested files matter: their
+/// rules must stop applying once the walk has left their directory, however
+/// many levels it ascends at once.
+fn add_ignore_files(rng: &mut Rng, tree: &mut Tree) {
+    if rng.chance(1, 3) {
+        return;
+    }
+    const RULES: &[&str] = &[
+        "a", "b", "c", "g", "z", "d1/", "big", "x-y", "*.rs", "*.txt", "*.md",
+        "!f.rs", "!e.txt", "!h.md", "/a", "/g", "**/c", "skipme.txt", ".h",
+        "!a", "!g", "e.*", "[a-c]", "z/", "!d1/",
+    ];
+    let mut dirs: Vec<String> = tree
+        .nodes
+        .iter()
+        .filter(|n| n.kind == Kind::Dir)
+        .map(|n| n.path.clone())
+        .collect();
+    rng.shuffle(&mut dirs);
+    dirs.truncate(rng.below(4));
+    if rng.chance(2, 3) {
+        dirs.push(String::new());
+    }
+    for d in dirs {
+        let mut text = String::new();
+        for _ in 0..rng.range(1, 4) {
+            text.push_str(rng.pick(RULES));
+            text.push('\n');
+        }
+        let path = if d.is_empty() { ".ignore".to_string() } else { format!("{}/.ignore", d) };
+        if tree.nodes.iter().any(|n| n.path == path) {
+            continue;
+        }
+        tree.nodes.push(Node { path, kind: Kind::Text(text) });
+    }
+}
+
 pub fn run(ctx: &Ctx) -> Report {
     let ntrees = ctx.cases(800, 20_000);
     let ncfg = if ctx.is_thorough() { 12 } else { 6 };
@@ -393,22 +432,20 @@ pub fn run(ctx: &Ctx) -> Report {
             max_nodes: 150,
         };
         let mut tree = treegen::gen_tree(rng, &tcfg);
-        if rng.chance(1, 3) {
-            tree.nodes.push(Node { path: ".ignore".into(), kind: Kind::File(0) });
-        }
+        add_ignore_files(rng, &mut tree);
         let (private, base) = treegen::fresh_dir("c06", (ctx.seed << 20) ^ i as u64);
         if tree.materialise(&base).is_err() {
             rep.inconclusive += 1;
             let _ = fs::remove_dir_all(&private);
             return;
         }
-        // the .ignore file gets real content
-        let ig = base.join(".ignore");
-        if ig.exists() {
-            let _ = fs::write(&ig, "a\n*.rs\n!f.rs\nd1/\n");
-        }
+        let has_ignore_files =
+            tree.nodes.iter().any(|n| matches!(n.kind, Kind::Text(_)));
         for _ in 0..ncfg {
-            let cfg = gen_cfg(rng, &tree);
+            let mut cfg = gen_cfg(rng, &tree);
+            if has_ignore_files && rng.chance(1, 2) {
+                cfg.use_ignore = true;
+            }
             let threads: Vec<usize> = if thorough {
                 vec![1, 2, 3, 4, 8, 16]
             } else {
@@ -427,10 +464,6 @@ pub fn replay(v: &Value) -> Report {
     let cfg = WalkCfg::from_json(&v["cfg"]);
     let (private, base) = treegen::fresh_dir("c06r", 0);
     if tree.materialise(&base).is_ok() {
-        let ig = base.join(".ignore");
-        if ig.exists() {
-            let _ = fs::write(&ig, "a\n*.rs\n!f.rs\nd1/\n");
-        }
         check_case(&tree, &cfg, &base, &[1, 2, 4, 8], &mut rep);
     }
     let _ = fs::remove_dir_all(&private);
